@@ -310,7 +310,7 @@ REGISTRY = {
         "assumptions": COMMON_ASSUMPTIONS,
     },
     "C01": {
-        "rules": [exponent.rule_partial_contraction_inds, exponent.rule_linop_dtype, exponent.rule_sum_exponents, exponent.rule_conj_mangle_universe, exponent.rule_exp_drop, exponent.rule_exp_flow, exponent.rule_exp_combine, exponent.rule_linop,
+        "rules": [exponent.rule_partial_contraction_inds, exponent.rule_linop_dtype, exponent.rule_sum_exponents, exponent.rule_conj_mangle_universe, exponent.rule_linop_private_tensors, exponent.rule_exp_drop, exponent.rule_exp_flow, exponent.rule_exp_combine, exponent.rule_linop,
                   exponent.rule_carrier_derivation, exponent.rule_hyper_count],
         "explanation": (
             "static (AST def-use flag closure): decides exponent accounting — every evaluator that turns tensors "
